@@ -5,6 +5,8 @@ import time
 
 REPO = os.path.realpath(os.environ.get("VERIF_REPO", "/repo"))
 VERIF = os.path.dirname(os.path.dirname(os.path.abspath(__file__)))
+# evidence/ and replays/ go here; scratch runs against a modified copy (tools/mut.sh) redirect it
+OUT = os.environ.get("VERIF_OUT") or VERIF
 
 
 class InfraError(Exception):
